@@ -72,6 +72,10 @@ def build(tier, seed):
         for d in DATA:
             cases.append({'kind': 'lay', 'lay': i, 'data': d})
     cases.append({'kind': 'multi'})
+    # call history: observables on configuration lists that are easily confused (same first / last / number of configurations / gap,
+    # different holes) analysed one after the other in one process, in both orders, alone and as one replica among two
+    for d in DATA:
+        cases.append({'kind': 'sequence', 'data': d})
     return cases
 
 
@@ -226,6 +230,31 @@ def run_case(case):
                     else:
                         acc.ok(('lay', case['lay'], d, pi, fft, source), True, info)
         acc.sample({'kind': 'lay', 'layout': {k: v[:4] + ['...'] + v[-1:] for k, v in lay.items()}, 'data': d})
+    elif kind == 'sequence':
+        d = case['data']
+        groups = [['eqA', 'eqB'], ['eqC', 'eqD'], ['trA', 'trB'], ['irr', 'irr2', 'g2']]
+        extra = {'h1': [1, 2, 3, 5, 6, 8, 9, 10, 12, 13, 14, 16], 'h2': [1, 2, 4, 5, 6, 7, 9, 11, 12, 14, 15, 16], 'h3': [1, 3, 4, 5, 7, 8, 9, 10, 11, 13, 15, 16]}
+        groups.append(sorted(extra))
+        cfg = dict(alpha.CFG, **extra)
+        for gi, grp in enumerate(groups):
+            for order in itertools.permutations(grp):
+                for second_replica in (False, True):
+                    for pars in (PARAMS[0], PARAMS[4]):
+                        for ci, cid in enumerate(order):
+                            lay = {'A|r1': enlarge(cfg[cid], 3)}
+                            if second_replica:
+                                lay['A|r2'] = enlarge(cfg['c8'], 3)
+                            o, samples, cfgs = alpha.make_obs(pe, lay, ('c02seq', gi, cid, d, second_replica), d)
+                            sub = dict(case, group=gi, order=list(order), position=ci, second_replica=second_replica, pars=pars)
+                            st, txt, info = analyse_and_compare(pe, o, pars, True, 'kw', samples)
+                            if st == 'fail':
+                                acc.fail('gamma-sequence:' + info, sub, 'analysed as number %d of the sequence %s%s (%s data, %s): %s' % (
+                                    ci + 1, list(order), ' + replica r2' if second_replica else '', d, pars, txt))
+                            elif st == 'skip':
+                                acc.skip(info)
+                            else:
+                                acc.ok(('seq', gi, order, ci, second_replica, d, repr(pars)), True, 'sequence:' + info)
+        acc.sample({'kind': 'sequence', 'groups': groups, 'data': d, 'orders': 'every permutation of each group'})
     elif kind == 'multi':
         # several ensembles, covariance inputs, per-ensemble parameters
         lays = alpha.layouts(tier)
